@@ -1,22 +1,39 @@
 """Regenerate every generated Lean file (lean/Gen/*.lean): scalar templates instantiated at
-Float and ℝ, and the models translated from /repo's current Python sources."""
+Float and ℝ, and the models translated from /repo's current Python sources.
+
+Each generator is isolated: one that rejects the current source leaves its own outputs stale and is
+recorded in lean/Gen/regen_status.json ({generator: "ok" | error text, "outputs": {generator: [modules]}});
+harness/common.lean_side fails only the properties whose theorems import a module of a failed generator."""
+import json
 import os
 import sys
 HERE = os.path.dirname(os.path.abspath(__file__))
 sys.path.insert(0, HERE)
 
+# Lean modules each generator writes (directly, or through the scalar template it writes)
+OUTPUTS = {
+    'py2lean': ['Gen.BmkF', 'Gen.BmkR', 'Gen.BmkSymR', 'Gen.BmkDispatchF'],
+    'gen_classtable': ['Gen.ClassTable'],
+    'gen_adim': ['Gen.AdimF', 'Gen.AdimR'],
+    'gen_bhref': ['Gen.BHRefF', 'Gen.BHRefR'],
+}
 
-def main():
+
+def main(strict=False):
     import warnings
     warnings.simplefilter('ignore', SyntaxWarning)
     import instantiate
     instantiate.main()
+    status = {}
     rc = 0
     try:
         import py2lean_targets
         rc = py2lean_targets.regen_all() or 0
+        status['py2lean'] = 'ok'
     except ImportError:
         pass
+    except Exception as e:
+        status['py2lean'] = repr(e)[:400]
     for gen in ('gen_classtable', 'gen_adim', 'gen_bhref'):
         try:
             mod = __import__(gen)
@@ -24,9 +41,17 @@ def main():
             continue
         try:
             mod.main()
+            status[gen] = 'ok'
         except SystemExit:
-            pass
+            status[gen] = 'ok'
+        except Exception as e:
+            status[gen] = repr(e)[:400]
     instantiate.main()
+    out = os.path.join(os.path.dirname(HERE), 'lean', 'Gen', 'regen_status.json')
+    json.dump(dict(status=status, outputs=OUTPUTS), open(out, 'w'), indent=1)
+    bad = {g: v for g, v in status.items() if v != 'ok'}
+    if strict and bad:
+        raise RuntimeError('generators failed: %r' % bad)
     return rc
 
 
